@@ -146,22 +146,19 @@ def check(repo, tier):
                         l2rules.invariant_obligation(run, 'C10', 'D4', repo, sc, t, entry, scen, 'returned state')
                     # word of applied propagators
                     word = []
-                    for e in sc.events('einsum'):
-                        if e.get('fn') is None or e['fn'].name != '__splitting_stage':
-                            continue
-                        ks = [o for o in e['ops'] if isinstance(o, Arr) and 'expm_of' in o.tags]
+                    for e in sc.events('contract'):
+                        # an application of a propagator: a contraction (np.einsum / np.tensordot / dot, wherever it is written) one operand of which is a matrix exponential
+                        ks = [o for o in (e['a'], e['b']) if isinstance(o, Arr) and 'expm_of' in o.tags]
                         if not ks:
                             continue
                         info = prop_info(ks[0])
                         if info is None:
                             word.append(None)
                             continue
-                        sites = sorted({l.resolve().key for g in ks[0].legs for l in g if l.resolve().kind == 'M'})
                         word.append((info[0], gen_structure(info[1]), ks[0]))
                     if None in word or not word:
-                        run.oblige('D1', (entry, scen, 'word'), False)
-                        run.add(F(entry, 'D1', 'propagators', f'{scen}: a propagator applied by a stage is not exp(coefficient * step_size * generator)'))
-                        continue
+                        raise AnalysisError(f'{scen}: ' + ('no application of a matrix exponential to the state was found' if not word else
+                                                           'a propagator applied by a stage is not recognisably exp(coefficient * step_size * generator)'))
                     per_step = len(word) // 2
                     w1 = word[:per_step]
                     # identify the bond of each application through the stage call order: parity stages
